@@ -1,5 +1,6 @@
 //! ymon — runtime monitors for y-crdt. One binary, several workloads; the python driver `check`
 //! shards runs over processes, aggregates the JSON summaries and applies the verdict discipline.
+mod c11;
 mod dump;
 mod model;
 mod monitors;
